@@ -18,6 +18,7 @@ type ConcResult struct {
 // queue under a controlled schedule (C13).
 func RunConcurrent(r *engine.RNG, cfg Config, events int) (*Session, *sched.Sys, ConcResult) {
 	s := New(cfg)
+	s.NoReach = true
 	var res ConcResult
 	if s.Open() != "ok" {
 		s.fail("C13", "open", "opening the queue failed")
